@@ -356,6 +356,14 @@ func gconcSpkRun(env *runner.Env) (res *runner.Result) {
 		res.NonTrivial = len(w.order) > 2
 		res.Log = s.Log
 		stats["handler-invocations"] += int64(len(w.order))
+		for i := 1; i < len(w.order); i++ {
+			if w.order[i] != w.order[i-1] {
+				stats["probe.listener-lock-handed-to-a-different-worker"]++
+			}
+		}
+		for k, v := range s.Released {
+			stats["released."+k] += int64(v)
+		}
 		stats["status-queries"] += int64(2 * nq)
 		_, _ = sink1, sink2
 		s.Kill()
